@@ -46,4 +46,12 @@ for sid in ids:
     finally:
         subprocess.run(["git", "-C", "/repo", "worktree", "remove", "--force", wt], capture_output=True)
         shutil.rmtree(wt, ignore_errors=True)
-        json.dump(results, open(resf, "w"), indent=1, sort_keys=True)
+        # several runs may work on disjoint id sets at the same time: merge under a lock
+        import fcntl
+        with open(resf + ".lock", "w") as lk:
+            fcntl.flock(lk, fcntl.LOCK_EX)
+            cur = json.load(open(resf)) if os.path.exists(resf) else {}
+            if sid in results:
+                cur[sid] = results[sid]
+            json.dump(cur, open(resf, "w"), indent=1, sort_keys=True)
+            results = cur
